@@ -9,7 +9,8 @@ Model of the INPUT VALIDATION of `filter_functions` (property C20): every `raise
 Abstraction.  The arguments are abstracted to exactly what the checks look at: Python types are
 classes ("has `__len__`", "is an `ndarray`", "has `.full()`" …), arrays are their shapes, durations
 are sign/realness classes, identifiers are strings, identifier mappings (`extend`, `remap`) are
-`dict`s as item lists (`RemapDef.Dict`; a missing key is the `KeyError` of the source), cached
+`dict`s as item lists (`RemapDef.Dict`; a missing key is a `ValueError` since the repair of F50 —
+`_map_identifiers` catches the `KeyError` of the look-up), cached
 arrays are identified by a natural
 number ("bytes id": equal ids ↔ equal `tobytes()`; "value id": equal ids ↔ `np.array_equal`).
 Every function returns `Except Err …`; the ORDER of the checks is that of the source, so the first
@@ -34,8 +35,6 @@ open FFVerif.Model
 
 /-- exception classes -/
 inductive Err | typeError | valueError | indexError | calculationError
-  /-- only raised by `extend` / `remap` for an identifier mapping that misses an identifier -/
-  | keyError
 deriving DecidableEq, Repr, Inhabited
 
 def Err.name : Err → String
@@ -43,7 +42,6 @@ def Err.name : Err → String
   | .valueError => "ValueError"
   | .indexError => "IndexError"
   | .calculationError => "CalculationError"
-  | .keyError => "KeyError"
 
 /-- number of distinct values (`len(set(...))`) -/
 def nDistinct {α : Type} [BEq α] (l : List α) : Nat := (Pulse.dedup l).length
@@ -345,8 +343,7 @@ deriving DecidableEq, Repr, Inhabited
 
 def errOfString (s : String) : Err :=
   if s == "TypeError" then .typeError else if s == "IndexError" then .indexError
-  else if s == "CalculationError" then .calculationError
-  else if s == "KeyError" then .keyError else .valueError
+  else if s == "CalculationError" then .calculationError else .valueError
 
 /-- the checks of `concatenate_without_filter_function(pulses)` (for an iterable `pulses`) -/
 def concatWithoutFFChecks (pulses : List CPulse) : Except Err Unit :=
@@ -493,7 +490,7 @@ def EPulse.effCm (p : EPulse) : Bool :=
   p.cmCached && !(p.remapped && !p.remapKeepsCm)
 
 /-- `_map_identifiers(*_default_extend_mapping(ids, id_mapping, qubits))[0]`: the values of the
-given mapping (`none`: `KeyError`, an identifier is not a key), or of the default mapping
+given mapping (`none`: an identifier is not a key — `ValueError`, F50), or of the default mapping
 `{q: q + '_' + ('{}'*len(qubits)).format(*qubits) for q in ids}` (for a single-qubit entry
 `q + '_{}'.format(qubit)`; multi-qubit entries carry the SORTED qubits) -/
 def EPulse.mapIds (p : EPulse) (ids : List String) : Option (List String) :=
@@ -503,11 +500,12 @@ def EPulse.mapIds (p : EPulse) (ids : List String) : Option (List String) :=
     let qs := if p.isSingle then p.qubits else sortNat p.qubits
     some (ids.map fun s => s ++ "_" ++ String.join (qs.map toString))
 
-/-- one of the two `_map_identifiers` calls for this entry raises `KeyError` -/
+/-- one of the two `_map_identifiers` calls for this entry raises (`ValueError` "Identifier
+mapping has no entry for identifier …"; a `KeyError` before the repair of F50) -/
 def EPulse.keyMissing (p : EPulse) : Bool := (p.mapIds p.cIds).isNone || (p.mapIds p.nIds).isNone
 
 /-- identifiers of the control / noise operators of the mapped pulse in the new pulse (`[]` when the
-mapping misses a key; `extend` has raised `KeyError` then) -/
+mapping misses a key; `extend` has raised then) -/
 def EPulse.newCIds (p : EPulse) : List String := (p.mapIds p.cIds).getD []
 def EPulse.newNIds (p : EPulse) : List String := (p.mapIds p.nIds).getD []
 
@@ -560,14 +558,15 @@ def extendFront (x : ExtendSpec) : Except Err Nat :=
     else .ok (x.N.getD (last + 1))
 
 /-- second part of `extend`: frequencies, option conflict, the two loops over the pulses (a given
-identifier mapping that misses an identifier raises `KeyError` there), uniqueness of the mapped
+identifier mapping that misses an identifier raises `ValueError` there — F50, formerly the bare
+`KeyError` of the look-up), uniqueness of the mapped
 identifiers (control first, then noise; the repair of F48), additional noise Hamiltonian -/
 def extendBack (x : ExtendSpec) (N : Nat) : Except Err Nat :=
   if x.cacheFF == some true && !x.omegaGiven && !extEqualOmega x then .error .valueError
   else if x.cacheDiag == some false && x.additional.isSome then .error .valueError
   -- `mapping[identifier]` in `_map_identifiers`, called in the loops over `multi_qubit_pulses`, then
   -- `single_qubit_pulses` (control identifiers first, then noise identifiers, per pulse)
-  else if (orderedPulses x).any (·.keyMissing) then .error .keyError
+  else if (orderedPulses x).any (·.keyMissing) then .error .valueError
   -- `if len(set(identifiers)) != len(identifiers): raise ValueError` for control, then noise
   else if Pulse.hasDup (mappedCIds x) then .error .valueError
   else if Pulse.hasDup (mappedNIds x) then .error .valueError
@@ -591,20 +590,21 @@ def extendChecks (x : ExtendSpec) : Except Err Nat :=
   | .ok N => if identityShortcut x.pulses N then .ok N else extendBack x N
 
 /-- `_map_identifiers(identifiers, mapping)[0]` in `remap`: the identifiers themselves for
-`mapping is None`, else `[mapping[identifier] for …]` (`none`: `KeyError`) -/
+`mapping is None`, else `[mapping[identifier] for …]` (`none`: a key is missing, `ValueError`) -/
 def remapIds (mapping : Option RemapDef.Dict) (ids : List String) : Option (List String) :=
   match mapping with
   | none => some ids
   | some m => RemapDef.applyDict m ids
 
-/-- the identifier part of `remap`: both `_map_identifiers` calls (control, then noise; `KeyError`),
+/-- the identifier part of `remap`: both `_map_identifiers` calls (control, then noise; a missing
+key is a `ValueError` since the repair of F50),
 then the uniqueness check of the repair of F48 (control, then noise; `ValueError`) -/
 def remapIdChecks (cIds nIds : List String) (mapping : Option RemapDef.Dict) : Except Err Unit :=
   match remapIds mapping cIds with
-  | none => .error .keyError
+  | none => .error .valueError
   | some c =>
     match remapIds mapping nIds with
-    | none => .error .keyError
+    | none => .error .valueError
     | some n =>
       if Pulse.hasDup c then .error .valueError
       else if Pulse.hasDup n then .error .valueError
@@ -695,7 +695,7 @@ def convergenceChecks (spectrumCallable omegaIsDict spacingKnown : Bool) : Excep
 General: tokens are separated by single blanks and contain none.  Naturals are decimal.  Lists of
 naturals / strings are joined by `,`; the empty list is `_`.  Identifiers must not contain any of
 the characters blank `,` `;` `:` `|` `/` `+` `~` `>` and must not be `_`, `-` or `!`.
-Answer: `ok …` or `err <TypeError|ValueError|IndexError|CalculationError|KeyError>`;
+Answer: `ok …` or `err <TypeError|ValueError|IndexError|CalculationError>`;
 `err bad-request` when the request cannot be decoded.
 
 * shape   `2x2` (axes joined by `x`); the 0-d shape is `_`
